@@ -52,3 +52,29 @@ def nexpr(r) -> str:
 
 def result_term(ok: bool, term: str = "") -> str:
     return f"(Ok {term})" if ok else "(Err OtherError)"
+
+
+def h5_term(item) -> str:
+    """raw h5py object -> Coq term of type h5 (names, kinds, string encodings, dtypes, shapes, values)"""
+    import h5py
+    if isinstance(item, h5py.Group):
+        ms = F.clist([f"({F.cstr(k)}, {h5_term(v)})" for k, v in item.items()])
+        return f"(H5Group {ms})"
+    info = h5py.check_string_dtype(item.dtype)
+    if info is not None:
+        enc = ("vlen" if info.length is None else "fixed") + "-" + info.encoding
+        v = item[()]
+        def txt(x):
+            return x if isinstance(x, (bytes, str)) else bytes(x)
+        if item.shape == ():
+            return f"(H5Str {F.cstr(enc)} {F.cstr(txt(v))})"
+        rows = np.asarray(v, dtype=object)
+        if rows.ndim == 1:
+            rows = rows.reshape(-1, 1)
+        return f"(H5Strs {F.cstr(enc)} " + F.clist([F.clist([F.cstr(txt(x)) for x in r]) for r in rows.tolist()]) + ")"
+    return f"(H5Data {F.pval(np.asarray(item[()]))})"
+
+
+def ops_term(ops) -> str:
+    m = {"infer": "OInfer", "dict": "ODict", "file": "OFile"}
+    return F.clist([m[o] for o in ops])
